@@ -42,6 +42,7 @@ def run(ck, fb):
     r20g(ck, fb)
     r20h(ck, fb)
     r20i(ck, fb)
+    r20j(ck, fb)
 
 
 def r20a(ck, fb):
@@ -547,3 +548,183 @@ def r20i(ck, fb, R='R20i'):
                    'read_len reports an error (end of stream) depending on `%s` of the byte count of the peek with a non-zero bound: a last record shorter than '
                    'the 10-byte window is never read' % rv['op'], 'count tested against 0 only')
     ck.floor(R, 'tests of the peek byte count', n, 1)
+
+
+class _ItemLocals:
+    def __init__(self, vec, idx):
+        self.vec, self.idx = vec, idx
+
+    def __getitem__(self, k):
+        return self.vec.items[self.idx]
+
+    def __setitem__(self, k, v):
+        self.vec.items[self.idx] = v
+
+
+class _ItemFrame:
+    """a write-through cell: element idx of a vector"""
+    def __init__(self, vec, idx):
+        self.locals = _ItemLocals(vec, idx)
+        self.body = None
+
+
+class _View:
+    def __init__(self, vec, lo, hi):
+        self.vec, self.lo, self.hi = vec, lo, hi
+
+
+class _It:
+    def __init__(self, view):
+        self.view, self.pos = view, view.lo
+
+
+class _Zip:
+    def __init__(self, a, b):
+        self.a, self.b = a, b
+
+
+def r20j(ck, fb, R='R20j'):
+    from rn.absint import Interp, Ref, VecV, BV, Adt, Tup, UNIT, Unsupported, Undecided, Panic
+    ck.rule(R, 'the carry-to-front keeps every unread byte: by interpretation of the compiled move_data_to_start(buf, start) over every buffer '
+               'length 0..7 and every start 0..len with distinct bytes: afterwards buf[i] == old buf[start + i] for every i < len - start (grid; '
+               'the body is a copy loop whose behaviour depends on len and start only through their order). Index loops over ranges, '
+               'copy_within, and split_at_mut / iter / iter_mut / zip pipelines are modelled; any other operation leaves the obligation undecided '
+               '(fails closed, names the operation). A zip of the two halves stops at the SHORTER one: with more unread bytes than consumed ones '
+               '(a 100-byte record followed by a 2000-byte one, 1024-byte chunks) the tail of the pending record is not moved and its body is '
+               'decoded from stale bytes')
+    b = ck.body(PU + 'move_data_to_start', R)
+    if not b:
+        return
+
+    def deref(i, v):
+        for _ in range(8):
+            if isinstance(v, Ref):
+                v = v.obj if v.obj is not None else i.read_place(v.frame, v.place)
+            else:
+                break
+        return v
+
+    def view(i, v):
+        v = deref(i, v)
+        if isinstance(v, VecV):
+            return _View(v, 0, len(v.items))
+        if isinstance(v, _View):
+            return v
+        raise Unsupported('slice operation on %r' % (v,))
+
+    def m_len(i, fr, t, args):
+        w = view(i, args[0])
+        return BV.const(64, w.hi - w.lo)
+
+    def m_into_iter(i, fr, t, args):
+        v = deref(i, args[0])
+        if isinstance(v, (VecV, _View)):
+            return _It(view(i, v))
+        return args[0]
+
+    def m_range_next(i, fr, t, args):
+        rng = deref(i, args[0])
+        if isinstance(rng, _It):
+            return m_it_next(i, fr, t, args)
+        if isinstance(rng, _Zip):
+            return m_zip_next(i, fr, t, args)
+        if not isinstance(rng, Adt):
+            raise Unsupported('next() of %r' % (rng,))
+        st, en = rng.fields[rng.names.index('start')], rng.fields[rng.names.index('end')]
+        if st.value() < en.value():
+            rng.fields[rng.names.index('start')] = BV.const(64, st.value() + 1)
+            return Adt('std::option::Option', 'Some', [st], ['0'])
+        return Adt('std::option::Option', 'None', [])
+
+    def item_ref(w, k):
+        return Ref(frame=_ItemFrame(w.vec, k), place=0)
+
+    def m_it_next(i, fr, t, args):
+        it = deref(i, args[0])
+        if it.pos < it.view.hi:
+            it.pos += 1
+            return Adt('std::option::Option', 'Some', [item_ref(it.view, it.pos - 1)], ['0'])
+        return Adt('std::option::Option', 'None', [])
+
+    def m_zip_next(i, fr, t, args):
+        z = deref(i, args[0])
+        if z.a.pos < z.a.view.hi and z.b.pos < z.b.view.hi:
+            z.a.pos += 1
+            z.b.pos += 1
+            return Adt('std::option::Option', 'Some', [Tup([item_ref(z.a.view, z.a.pos - 1), item_ref(z.b.view, z.b.pos - 1)])], ['0'])
+        return Adt('std::option::Option', 'None', [])
+
+    def m_split(i, fr, t, args):
+        w = view(i, args[0])
+        mid = args[1].value()
+        if mid > w.hi - w.lo:
+            raise Panic('split_at_mut: mid > len')
+        return Tup([Ref(obj=_View(w.vec, w.lo, w.lo + mid)), Ref(obj=_View(w.vec, w.lo + mid, w.hi))])
+
+    def m_iter(i, fr, t, args):
+        return _It(view(i, args[0]))
+
+    def m_zip(i, fr, t, args):
+        a, b2 = deref(i, args[0]), deref(i, args[1])
+        if isinstance(b2, (VecV, _View)):
+            b2 = _It(view(i, b2))
+        if not (isinstance(a, _It) and isinstance(b2, _It)):
+            raise Unsupported('zip of %r and %r' % (a, b2))
+        return _Zip(a, b2)
+
+    def m_copy_within(i, fr, t, args):
+        w = view(i, args[0])
+        rng = deref(i, args[1])
+        dest = args[2].value()
+        n = w.hi - w.lo
+        if isinstance(rng, Adt) and 'start' in rng.names and 'end' in rng.names:
+            lo, hi = rng.fields[rng.names.index('start')].value(), rng.fields[rng.names.index('end')].value()
+        elif isinstance(rng, Adt) and rng.names == ['start']:
+            lo, hi = rng.fields[0].value(), n
+        else:
+            raise Unsupported('copy_within range %r' % (rng,))
+        if lo > hi or hi > n or dest + (hi - lo) > n:
+            raise Panic('copy_within out of bounds')
+        tmp = [w.vec.items[w.lo + k] for k in range(lo, hi)]
+        for k, x in enumerate(tmp):
+            w.vec.items[w.lo + dest + k] = x
+        return UNIT
+    models = {}
+    for s0 in [s1 for x in util.region(fb, b, 1) for s1 in x.sites]:
+        nm = s0.resolved or s0.callee or ''
+        if re.search(r'slice::<impl \[T\]>::len$', nm):
+            models[nm] = m_len
+        elif re.search(r'IntoIterator>::into_iter$|IntoIterator::into_iter$', nm):
+            models[nm] = m_into_iter
+        elif re.search(r'Iterator>::next$|Iterator::next$|::next$', nm):
+            models[nm] = m_range_next
+        elif re.search(r'slice::<impl \[T\]>::split_at_mut$|slice::<impl \[T\]>::split_at$', nm):
+            models[nm] = m_split
+        elif re.search(r'slice::<impl \[T\]>::(iter|iter_mut)$', nm):
+            models[nm] = m_iter
+        elif re.search(r'Iterator>::zip$|Iterator::zip$', nm):
+            models[nm] = m_zip
+        elif re.search(r'slice::<impl \[T\]>::copy_within$', nm):
+            models[nm] = m_copy_within
+        if (s0.callee or '') != nm and nm in models:
+            models[s0.callee] = models[nm]
+    bad = None
+    n = 0
+    for ln in range(0, 8):
+        for st in range(0, ln + 1):
+            n += 1
+            buf = VecV([BV.const(8, 10 + k) for k in range(ln)])
+            try:
+                Interp(fb, call_models=models).call_body(b, [Ref(obj=buf), BV.const(64, st)], 0)
+            except (Unsupported, Undecided, Panic, AttributeError, KeyError, IndexError, TypeError) as e:
+                bad = bad or ('len %d, start %d: not decided (%s: %s)' % (ln, st, type(e).__name__, str(e)[:120]))
+                continue
+            got = [x.value() if isinstance(x, BV) and x.is_const() else None for x in buf.items]
+            want = [10 + st + k for k in range(ln - st)]
+            if got[:ln - st] != want:
+                bad = bad or ('len %d, start %d: the front of the buffer is %s, the unread bytes were %s' % (ln, st, got[:ln - st], want))
+    ck.extra['move_data_to_start_grid_cases'] = n
+    ck.require(bad is None, R, 'move_data_to_start:moves-every-unread-byte', b.where(),
+               'move_data_to_start does not carry all of buf[start..] to the front - %s: a record that crosses a read-chunk boundary is decoded from '
+               'stale bytes whenever more bytes are pending than were consumed before it (the decoded records depend on the chunking)' % bad,
+               '%d (len, start) cases' % n)
